@@ -508,14 +508,47 @@ static char *join_tokens(Token *tok, Token *end) {
   return buf;
 }
 
+// True if `tok` is spelled as a string literal or a character constant.
+static bool is_quoted_literal(Token *tok) {
+  char *p = tok->loc;
+  char *end = tok->loc + tok->len;
+  if (p + 1 < end && p[0] == 'u' && p[1] == '8')
+    p += 2;
+  else if (p < end && (*p == 'u' || *p == 'U' || *p == 'L'))
+    p++;
+  return p < end && (*p == '"' || *p == '\'');
+}
+
 // Concatenates all tokens in `arg` and returns a new string token.
 // This function is used for the stringizing operator (#).
+//
+// C11 6.10.3.2p2: a backslash is inserted before each " and \ of a
+// character constant or string literal; other tokens are spelled as
+// they are.
 static Token *stringize(Token *hash, Token *arg) {
-  // Create a new string token. We need to set some value to its
-  // source location for error reporting function, so we use a macro
-  // name token as a template.
-  char *s = join_tokens(arg, NULL);
-  return new_str_token(s, hash);
+  int len = 3;
+  for (Token *t = arg; t->kind != TK_EOF; t = t->next)
+    len += 2 * t->len + 1;
+
+  char *buf = calloc(1, len);
+  char *p = buf;
+  *p++ = '"';
+  for (Token *t = arg; t->kind != TK_EOF; t = t->next) {
+    if (t != arg && (t->has_space || t->at_bol))
+      *p++ = ' ';
+    bool quote = is_quoted_literal(t);
+    for (int i = 0; i < t->len; i++) {
+      if (quote && (t->loc[i] == '\\' || t->loc[i] == '"'))
+        *p++ = '\\';
+      *p++ = t->loc[i];
+    }
+  }
+  *p++ = '"';
+  *p++ = '\0';
+
+  // We need to set some value to the new token's source location for
+  // the error reporting functions, so we use the '#' token as a template.
+  return tokenize(new_file(hash->file->name, hash->file->file_no, buf));
 }
 
 // Concatenate two tokens to create a new token.
